@@ -8,29 +8,32 @@ SPEC = {
         "/repo hook html/boxes/verif_export_c09.go (VerifC09ElementToBox = first half of BuildFormattingStructure; table flags; makeBox; integerAttribute)",
         "projection of Go boxes to abstract boxes in go/cmd/c09 (type, element index, pseudo type, anonymous style, float/position/running flags, white-space class, header/footer display, caption-side, colspan/rowspan/span attributes, text)",
         "elementToBox, style computation and x/net/html parsing produce the model's input (not modelled; only makeBox's display switch is)",
-        "the element -> display:none relation is read from /repo's computed styles by the harness",
+        "the element -> display:none relation: an element is hidden when its style attribute declares display:none or its computed display is none; the computed styles are read from a separate parse on which no box has been generated (elementToBox writes into the style objects it visits)",
+        "the footnote list filled by BuildFormattingStructure is read through the footnotes argument of the call",
     ],
     "not_modelled": ["ProcessWhitespace / text transforms (the text after them is an input)", "collapseTableBorders",
                      "Leading/TrailingCollapsibleSpace bookkeeping of InlineInBlock", "footnote extraction",
-                     "elementToBox itself (pseudo-elements, markers, replaced elements: only their resulting boxes are inputs)"],
+                     "elementToBox's box contents (pseudo-elements, markers, replaced elements: only their resulting boxes are inputs; WHICH elements get boxes and the footnote list ARE modelled: Box/ElementGen.v)"],
     "codes": {"1": "box tree returned by BuildFormattingStructure differs from the model's tree (type, anonymity, element, GridX/Colspan/Rowspan, wrapper/header/footer/item flags, text or child order)",
               "3": "implementation's tree violates the well-formedness specification Box/BoxWf.wf_root",
-              "4": "a box exists for an element of a display:none subtree",
+              "4": "a box exists for an element of a display:none subtree (in the box tree or in the footnote list)",
               "5": "implementation panicked where the model returns a tree",
               "6": "model panics / runs out of fuel where the implementation returned a tree",
               "7": "malformed case", "8": "makeBox display->type table differs", "9": "box class table differs",
               "10": "IsInProperParents table differs",
               "11": "two cells of a row group share a grid slot, every such pair being a column-spanning cell that runs into a cell spanning down from a row above (tree otherwise as the model says)",
+              "13": "the footnote list holds a box whose element is not a visible float: footnote element of the document, or its entries are not in the order in which those elements end",
               "12": "two cells of a row group share a grid slot in another way than colspan over a row-spanning cell"},
     "theorems_for_kind": {
-        "tree": "C09_create_anonymous_wf_partial / C09_table_fixup_wf / C09_slots (the model's tree is the well-formed one)",
+        "tree": "C09_create_anonymous_wf_partial / C09_table_fixup_wf / C09_slots (the model's tree is the well-formed one) / C09_element_to_box_display_none / C09_footnote_list",
         "corpus": "C09_create_anonymous_wf_partial / C09_slots",
         "makebox": "C09_makebox_table_total", "classes": "class predicates used by every C09 theorem",
         "proper-parents": "C09_table_fixup_wf (rule 3.2)",
     },
     "rule": "SplitMix64-seeded random documents (<= 30 elements; every element gets a random display among the 20 supported values "
             "incl. mis-nested table parts, float, position incl. running(), white-space, colspan/rowspan/span attributes, ::before/::after "
-            "with content, list items, images; text / whitespace-only text between elements; real <table> markup; 1 in 6 a well-formed table "
+            "with content, list items, images, float: footnote with footnote-display; 1 element in 16 is display:none crossed with one or two other box-generating features (float left / right / footnote x footnote-display, "
+            "position absolute / fixed / relative / running(), list markers, ::before / ::after content, replaced / table-cell / list-item / footnote children), in both declaration orders; text / whitespace-only text between elements; real <table> markup; 1 in 6 a well-formed table "
             "with heavy col/rowspans) + exhaustive makeBox / box-class / IsInProperParents tables + corpus/C09/*.html first; "
             "non-trivial = more than 3 boxes before fix-up; distinct by Coq term",
 }
